@@ -476,11 +476,18 @@ def install(eng: Any) -> None:  # noqa: C901
             _frozen(e, recv, "pop")
             if not e.decide(Frame(e, "", {}, None).truth(recv)):
                 raise_("KeyError")
-            # arbitrary element: fresh symbolic member constrained to be in the set
-            r = e.decls.fresh("popped", INT)
-            e.pc.append(And(smt.Ge(r, 0), smt.Lt(r, len(recv.sort.members))))
-            e.pc.append(Or(*[And(Eq(r, i), b) for i, b in recv.mem.items()]))
-            out = SymEnum(recv.sort, r)
+            # set.pop() returns an arbitrary element: only deterministic when the set is a singleton.  That is a
+            # call-site obligation; under it the result is THE element (encoded as the first member present, a
+            # function of the set - no existential witness, so the term is safe under negation).
+            n_in = 0
+            for b in recv.mem.values():
+                n_in = smt.Add(n_in, Ite(b, 1, 0))
+            e.oblige(Eq(n_in, 1), "set.pop() on a set that may hold several elements (result would be arbitrary)")
+            items = sorted(recv.mem.items())
+            r = items[-1][0]
+            for i, b in reversed(items[:-1]):
+                r = Ite(b, i, r)
+            out = SymEnum(recv.sort, r) if is_sym(r) else recv.sort.members[r]
             for i in recv.mem:
                 recv.mem[i] = And(recv.mem[i], Not(Eq(r, i)))
             return out
